@@ -72,6 +72,33 @@ pub fn build_section(
     shape_filter: Option<&dyn Fn(&Value) -> bool>,
     protocol_pin: Option<u8>,
 ) -> (Vec<u8>, Value, Value) {
+    if shape_filter.is_some() {
+        return build_section_any(rng, ctx, sec, engine, appid, shape_filter, protocol_pin);
+    }
+    // the caller does not insist on a shape: a reply that fits one datagram a server sends (D17); callers that want large
+    // replies name the shape and split them
+    let mut best: Option<(Vec<u8>, Value, Value)> = None;
+    for _ in 0 .. 40 {
+        let b = build_section_any(rng, ctx, sec, engine, appid, None, protocol_pin);
+        if b.0.len() <= 1300 {
+            return b;
+        }
+        if best.as_ref().map_or(true, |x| b.0.len() < x.0.len()) {
+            best = Some(b);
+        }
+    }
+    best.unwrap()
+}
+
+fn build_section_any(
+    rng: &mut StdRng,
+    ctx: &Ctx,
+    sec: &str,
+    engine: &Value,
+    appid: u32,
+    shape_filter: Option<&dyn Fn(&Value) -> bool>,
+    protocol_pin: Option<u8>,
+) -> (Vec<u8>, Value, Value) {
     let lsec = match sec {
         "info" => if obsolete_info(engine) { "info_goldsrc" } else { "info_source" },
         s => s,
@@ -664,6 +691,7 @@ fn one_layout_case(ctx: &Ctx, rng: &mut StdRng, lsec: &str, shape: &Value, tr: &
         s => s,
     };
     let proto7 = css && rng.gen_bool(0.5);
+    let other_protocol: u8 = *[0u8, 6, 8, 17, 48, 255].choose(rng).unwrap();
     let mut on_send: Vec<Vec<Vec<u8>>> = Vec::new();
     let mut expected = json!({});
     let mut uncertain = Value::Null;
@@ -678,7 +706,8 @@ fn one_layout_case(ctx: &Ctx, rng: &mut StdRng, lsec: &str, shape: &Value, tr: &
             &engine,
             appid,
             if use_shape { Some(&filt) } else { None },
-            if sec == "info" && proto7 { Some(7) } else { None },
+            // app 240: protocol 7 decides the split-header form of the later sections, so it is never 7 by accident
+            if sec == "info" && proto7 { Some(7) } else if sec == "info" && css { Some(other_protocol) } else { None },
         );
         if use_shape {
             uncertain = info["uncertain"].clone();
@@ -776,11 +805,11 @@ fn one_layout_case(ctx: &Ctx, rng: &mut StdRng, lsec: &str, shape: &Value, tr: &
 // ---- implementation -> spec: random exchanges recorded for Trace_ValveA2S.tla -----------------------------
 
 /// Random configurations and random server reactions (more retries / rounds than the exhaustive configs, junk).
-pub fn trace_random(ctx: &Ctx, seed: u64, runs: usize, out: &mut Vec<Value>, rep: &mut Report) {
+pub fn trace_random(ctx: &Ctx, seed: u64, runs: usize, dump: Option<usize>, out: &mut Vec<Value>, rep: &mut Report) {
     use gamedig::verif_hook as hook;
     let mut rng = StdRng::seed_from_u64(seed);
     let toggles = ["Skip", "Try", "Enforce"];
-    for _ in 0 .. runs {
+    for ix in 0 .. runs {
         let r = [0u64, 0, 1, 1, 2, 3, 5][rng.gen_range(0 .. 7)];
         let expect = ["none", "main", "main+ded"][rng.gen_range(0 .. 3)];
         let srv = ["main", "ded", "other"][rng.gen_range(0 .. 3)];
@@ -851,7 +880,11 @@ pub fn trace_random(ctx: &Ctx, seed: u64, runs: usize, out: &mut Vec<Value>, rep
         rep.evaluations += 1;
         rep.distinct.insert(hash_of(&(cfg.to_string(), reactions.iter().take(12).collect::<Vec<_>>())));
         let start = out.len();
-        out.push(json!({"ev":"Call","cfg":cfg}));
+        out.push(json!({"ev":"Call","ix":ix,"cfg":cfg}));
+        if dump == Some(ix) {
+            rep.extra.insert("dumped_run".into(), json!({"kind":"valve-trace","cfg":cfg,"engine":engine,"appid":appid,"script":script,
+                                                         "reactions":reactions.iter().take(sim.len().min(24)).collect::<Vec<_>>()}));
+        }
         // project the recorded socket events onto the specification's alphabet
         let mut send_no = 0usize;
         let mut pending: Vec<bool> = Vec::new(); // recv outcomes since the last send: true = data
@@ -967,9 +1000,10 @@ fn simulate(cfg: &Value, reactions: &[&str]) -> Vec<&'static str> {
                     "chal" => continue,
                     "good" | "frags" => continue 'sections,
                     "junk" => {
-                        // validity unknown: both continuations request sections from here on; the reply bytes only matter for
-                        // parsing, so keep following the "it was malformed" flow for Enforce, the next section otherwise
-                        if tog == "Enforce" { break 'sections } else { continue 'sections }
+                        // validity unknown (random bytes can happen to parse): if the client takes it as malformed under
+                        // Enforce it stops and the remaining slots are never used; in every other case it goes on with the
+                        // next section - so the remaining slots are scripted for that continuation
+                        continue 'sections;
                     }
                     "bad" => {
                         if tog == "Enforce" { break 'sections } else { continue 'sections }
